@@ -298,13 +298,17 @@ fn do_ids(case: &J, out: &mut Out) {
         ids.push(value_to_json_cid(&JValue::from(v.clone())).map(|c| c.get_inner().to_string()).unwrap_or_default());
     }
     // also the interpreter's own parser on the spelling
+    // (only when it reads the same value: how JValue parses is property C26's business)
+    let reference = JValue::from(vals[0].clone());
+    let mut parse_differs = false;
     for t in &texts {
-        if let Ok(jv) = serde_json::from_str::<JValue>(t) {
-            ids.push(value_to_json_cid(&jv).map(|c| c.get_inner().to_string()).unwrap_or_default());
+        match serde_json::from_str::<JValue>(t) {
+            Ok(jv) if jv == reference => ids.push(value_to_json_cid(&jv).map(|c| c.get_inner().to_string()).unwrap_or_default()),
+            _ => parse_differs = true,
         }
     }
     out.terms.push(format!("(CIds {})", c::list(ids.iter().map(|i| c::s(i)))));
-    out.classes.push(format!("ids/spellings/{}", texts.len()));
+    out.classes.push(format!("ids/spellings/{}{}", texts.len(), if parse_differs { "/JVALUE_PARSE_DIFFERS" } else { "" }));
     out.infos.push(serde_json::json!({"kind": "ids", "texts": texts}));
 }
 
